@@ -1028,3 +1028,120 @@ fn replay(ctx: &mut Ctx, _args: &Args, rec: &Value, input: Option<&[u8]>) {
         judge(ctx, &o, font, gid, &coords, policy, &what, &exp);
     }
 }
+
+// ------------------------------------------------------------------ libFuzzer support
+//
+// Ctx-free entry points used by the cargo-fuzz targets in /verif/harness/fuzz
+// (extra stage "fuzz-c13_colr"): the same checker painter and the same generic
+// oracles as `paint_one` / `judge`, on the calling thread (libFuzzer's own
+// -timeout is the hang monitor there).
+
+/// Paint one glyph with the checker painter on the calling thread.
+/// `Err` is a panic that is NOT the painter's own budget abort.
+pub fn paint_direct(font: &[u8], gid: u32, coords: &[i16], policy: Policy, want: Want) -> Result<Outcome, vf_core::PanicInfo> {
+    let mon = RefCell::new(Mon::new(policy));
+    let ncoords: Vec<skrifa::instance::NormalizedCoord> = coords.iter().map(|c| skrifa::instance::NormalizedCoord::from_bits(*c)).collect();
+    let _ = skrifa::color::verif_traversal_hooks::take_visits();
+    let res = vf_core::guard(|| -> Option<(bool, Result<(), PaintError>)> {
+        let fr = FontRef::new(font).ok()?;
+        let coll = fr.color_glyphs();
+        let g = GlyphId::new(gid);
+        let glyph = match want {
+            Want::Any => coll.get(g),
+            Want::V0 => coll.get_with_format(g, ColorGlyphFormat::ColrV0),
+            Want::V1 => coll.get_with_format(g, ColorGlyphFormat::ColrV1),
+        }?;
+        let v1 = matches!(glyph.format(), ColorGlyphFormat::ColrV1);
+        let mut m = mon.borrow_mut();
+        let r = glyph.paint(skrifa::instance::LocationRef::new(&ncoords), &mut *m);
+        Some((v1, r))
+    });
+    let (visits, depth) = skrifa::color::verif_traversal_hooks::take_visits();
+    let m = mon.into_inner();
+    let mk = |present: bool, v1: bool, ok: bool, err: String, aborted: bool| Outcome {
+        present,
+        v1,
+        ok,
+        err,
+        visits,
+        max_depth: depth,
+        callbacks: m.callbacks,
+        open: m.stack.len(),
+        nest_error: m.nest_error.clone(),
+        aborted,
+        timed_out: false,
+        pushes: m.ev[0] + m.ev[2] + m.ev[3] + m.ev[8],
+        digest: m.digest.finish(),
+        log: m.log_string(),
+        ev: m.ev,
+        mode_mismatch: m.mode_mismatch,
+    };
+    match res {
+        Ok(None) => Ok(mk(false, false, false, String::new(), false)),
+        Ok(Some((v1, Ok(())))) => Ok(mk(true, v1, true, String::new(), false)),
+        Ok(Some((v1, Err(e)))) => Ok(mk(true, v1, false, err_kind(&e), false)),
+        Err(p) if p.class == vf_core::PanicClass::Harness => Ok(mk(true, true, false, "aborted-by-painter".into(), true)),
+        Err(p) => Err(p),
+    }
+}
+
+/// The generic oracles of [`judge`] (those that need no reference model), as a
+/// list of violation kinds; empty = the outcome satisfies the property.
+pub fn generic_verdicts(o: &Outcome, policy: Policy) -> Vec<String> {
+    let mut v = vec![];
+    if !o.present {
+        return v;
+    }
+    if o.aborted || o.visits > VISIT_BUDGET {
+        v.push("unbounded-traversal".to_string());
+    }
+    if o.max_depth > MAX_DEPTH {
+        v.push(format!("depth-limit-exceeded:depth={}", o.max_depth));
+    } else if o.max_depth == MAX_DEPTH && o.ok && policy.cache == Cache::Unimplemented {
+        v.push("too-deep-graph-painted-ok".to_string());
+    }
+    if o.ok {
+        if let Some((e, _)) = &o.nest_error {
+            v.push(format!("ok-but-misnested:{}", e));
+        } else if o.open > 0 {
+            v.push(format!("ok-but-unbalanced:open={}", o.open));
+        }
+    }
+    v
+}
+
+/// The non-triviality rule of this check applied to one outcome.
+pub fn outcome_nontrivial(o: &Outcome) -> bool {
+    o.present && o.v1 && ((o.visits >= 3 && o.pushes >= 1) || (!o.ok && o.visits >= 2))
+}
+
+/// COLR tables of generated paint graphs (every family, the chain kinds and small
+/// instances of the fan-out shapes) as seed inputs for the fuzzer.
+pub fn seed_colr_tables(seed: u64, per_family: usize) -> Vec<(String, Vec<u8>)> {
+    let mut out = vec![];
+    let mut push = |name: String, m: &Model, rng: &mut Rng| {
+        if let Ok(bytes) = write_fonts::dump_table(&m.to_colr(rng)) {
+            out.push((name, bytes));
+        }
+    };
+    for fam in FAMILIES {
+        for i in 0..per_family {
+            let mut rng = Rng::derive(seed, "c13-fuzz-seed", fnv64(fam.as_bytes()) ^ i as u64);
+            if let Some(m) = Model::generate(fam, &mut rng) {
+                push(format!("gen-{}-{}", fam, i), &m, &mut rng);
+            }
+        }
+    }
+    for kind in CHAIN_KINDS {
+        for (len, closing) in [(3usize, 0usize), (5, 1), (8, 2), (63, 0), (66, 0)] {
+            let mut rng = Rng::derive(seed, "c13-fuzz-chain", (len * 16 + closing) as u64 ^ fnv64(kind.as_bytes()));
+            let m = Model::chain(kind, len, closing, &mut rng);
+            push(format!("chain-{}-{}-{}", kind, len, closing), &m, &mut rng);
+        }
+    }
+    let mut rng = Rng::derive(seed, "c13-fuzz-fanout", 0);
+    push("fibonacci-8".into(), &Model::fibonacci_layers(8), &mut rng);
+    push("shared-composite-6".into(), &Model::shared_child_composite(6), &mut rng);
+    push("nested-glyph-6".into(), &Model::nested_glyph_chain(6), &mut rng);
+    out
+}
